@@ -16,6 +16,7 @@ programmer chose.
   C9  `f(**{'k': v})` with literal keys -> `f(k=v)`.
   C10 `if c: x = A else: x = B` -> `x = A if c else B`.
   C11 `sum([... for ...])` (any, all, max, min, sorted, set, tuple, list) -> `sum(... for ...)`.
+  C12 `a, b = x, y` (plain names, no name read on the right) -> `a = x; b = y`.
   C5  statements without effect (a bare constant expression that is not a docstring; `pass` in a block that has
       other statements) are dropped.
 
@@ -134,6 +135,9 @@ class _Canon(ast.NodeTransformer):
         self.generic_visit(n)
         n.body = self._strip(n.body)
         n.orelse = self._strip(n.orelse) if n.orelse else n.orelse
+        if not self.pattern:
+            n.body = self._split_tuple_assign(n.body)
+            n.orelse = self._split_tuple_assign(n.orelse) if n.orelse else n.orelse
         if n.orelse:
             t, sw = self._positive(n.test)
             if sw:
@@ -199,12 +203,31 @@ class _Canon(ast.NodeTransformer):
             out = [body[0]] if body else body
         return out
 
+    @staticmethod
+    def _split_tuple_assign(body):
+        """C12: `a, b = x, y` (names on the left, none of them read on the right) is `a = x; b = y`."""
+        out = []
+        for s in body:
+            if isinstance(s, ast.Assign) and len(s.targets) == 1 and isinstance(s.targets[0], ast.Tuple) \
+                    and isinstance(s.value, ast.Tuple) and len(s.value.elts) == len(s.targets[0].elts) \
+                    and all(isinstance(t, ast.Name) for t in s.targets[0].elts) \
+                    and not any(isinstance(v, ast.Starred) for v in s.value.elts):
+                names = {t.id for t in s.targets[0].elts}
+                read = {x.id for v in s.value.elts for x in ast.walk(v) if isinstance(x, ast.Name)}
+                if not (names & read) and len(names) == len(s.targets[0].elts):
+                    for t, v in zip(s.targets[0].elts, s.value.elts):
+                        out.append(ast.copy_location(ast.Assign(targets=[t], value=v), s))
+                    continue
+            out.append(s)
+        return out
+
     def _block(self, n, doc=False):
         self.generic_visit(n)
         for f in ("body", "orelse", "finalbody"):
             b = getattr(n, f, None)
             if isinstance(b, list) and b and isinstance(b[0], ast.stmt):
-                setattr(n, f, self._strip(b, keep_doc=doc and f == "body"))
+                b = self._strip(b, keep_doc=doc and f == "body")
+                setattr(n, f, b if self.pattern else self._split_tuple_assign(b))
         return n
 
     def visit_FunctionDef(self, n):
